@@ -111,6 +111,9 @@ struct G<'a> { rng: &'a mut Rng, fam: Fam, game: Game, regs: bool, jumps: bool, 
                ints: Vec<String>, floats: Vec<String>, labels_defined: Vec<String>, labels_wanted: Vec<String>, nlabel: usize, nvar: usize, consts: Vec<(String, bool)> }
 
 impl<'a> G<'a> {
+    // MSG opcodes are stored in one byte
+    fn op_i(&self) -> u32 { if self.fam == Fam::Msg { 100 } else { 900 } }
+    fn op_f(&self) -> u32 { if self.fam == Fam::Msg { 101 } else { 901 } }
     fn int_arg(&mut self) -> String {
         match self.rng.below(6) {
             0 if !self.ints.is_empty() && self.regs => self.rng.pick(&self.ints).clone(),
@@ -136,8 +139,8 @@ impl<'a> G<'a> {
     fn stmt(&mut self, depth: usize, out: &mut String) {
         let ind = "    ".repeat(depth + 1);
         match self.rng.below(16) {
-            0 | 1 | 2 | 3 => { let (a, b) = (self.int_arg(), self.int_arg()); writeln!(out, "{}ins_900({}, {});", ind, a, b).unwrap(); }
-            4 | 5 => { let (a, b) = (self.int_arg(), self.float_arg()); writeln!(out, "{}ins_901({}, {});", ind, a, b).unwrap(); }
+            0 | 1 | 2 | 3 => { let (a, b) = (self.int_arg(), self.int_arg()); writeln!(out, "{}ins_{}({}, {});", ind, self.op_i(), a, b).unwrap(); }
+            4 | 5 => { let (a, b) = (self.int_arg(), self.float_arg()); writeln!(out, "{}ins_{}({}, {});", ind, self.op_f(), a, b).unwrap(); }
             6 if self.strings => { let s = self.string_lit(); let op = if self.rng.chance(1, 2) { 16 } else { 17 }; writeln!(out, "{}ins_{}({});", ind, op, s).unwrap(); }
             7 => { writeln!(out, "{}+{}:", "    ".repeat(depth), self.rng.range(1, 30)).unwrap(); }
             8 | 9 if self.regs && self.nvar < 3 => {
@@ -145,7 +148,7 @@ impl<'a> G<'a> {
                 if self.rng.chance(2, 3) { let n = format!("iv{}", self.ints.len() + self.floats.len()); writeln!(out, "{}int {} = {};", ind, n, self.rng.range(0, 50)).unwrap(); self.ints.push(n); }
                 else { let n = format!("fv{}", self.ints.len() + self.floats.len()); writeln!(out, "{}float {} = {}.5;", ind, n, self.rng.range(0, 50)).unwrap(); self.floats.push(n); }
             }
-            10 => { let l = format!("lab{}", self.nlabel); self.nlabel += 1; writeln!(out, "{}{}:", "    ".repeat(depth), l).unwrap(); self.labels_defined.push(l); }
+            10 if depth == 0 => { let l = format!("lab{}", self.nlabel); self.nlabel += 1; writeln!(out, "{}{}:", "    ".repeat(depth), l).unwrap(); self.labels_defined.push(l); }
             11 if self.jumps => {
                 // a jump to an already defined or a later label
                 let l = if !self.labels_defined.is_empty() && self.rng.chance(1, 2) { self.rng.pick(&self.labels_defined).clone() } else { let l = format!("fwd{}", self.labels_wanted.len()); self.labels_wanted.push(l.clone()); l };
@@ -173,10 +176,10 @@ impl<'a> G<'a> {
                 writeln!(out, "{}{{", ind).unwrap();
                 let n = format!("iv{}", self.ints.len() + self.floats.len() + 10 * (depth + 1));
                 writeln!(out, "{}    int {} = {};", ind, n, self.rng.range(0, 9)).unwrap();
-                writeln!(out, "{}    ins_900({}, 1);", ind, n).unwrap();
+                writeln!(out, "{}    ins_{}({}, 1);", ind, self.op_i(), n).unwrap();
                 writeln!(out, "{}}}", ind).unwrap();
             }
-            _ => { let (a, b) = (self.int_arg(), self.int_arg()); writeln!(out, "{}ins_900({}, {});", ind, a, b).unwrap(); }
+            _ => { let (a, b) = (self.int_arg(), self.int_arg()); writeln!(out, "{}ins_{}({}, {});", ind, self.op_i(), a, b).unwrap(); }
         }
     }
     fn body(&mut self) -> String {
@@ -187,7 +190,7 @@ impl<'a> G<'a> {
         // define the labels that jumps asked for, at the very end (a label at the closing brace) or before a last instruction
         for l in std::mem::take(&mut self.labels_wanted) {
             writeln!(out, "{}:", l).unwrap();
-            if self.rng.chance(1, 2) { writeln!(out, "    ins_900(0, 0);").unwrap(); }
+            if self.rng.chance(1, 2) { writeln!(out, "    ins_{}(0, 0);", self.op_i()).unwrap(); }
         }
         out
     }
@@ -195,7 +198,7 @@ impl<'a> G<'a> {
 
 fn mapfile(fam: Fam) -> String {
     let magic = match fam { Fam::Anm => "!anmmap", Fam::Msg => "!msgmap", Fam::Std => "!stdmap", _ => "!eclmap" };
-    let mut s = format!("{}\n!ins_signatures\n900 SS\n901 Sf\n", magic);
+    let mut s = format!("{}\n!ins_signatures\n900 SS\n901 Sf\n100 SS\n101 Sf\n", magic);
     if fam == Fam::Olde { s.push_str("!timeline_ins_signatures\n900 SS\n901 Sf\n!difficulty_flags\n0 E-\n1 N-\n2 H-\n3 L-\n4 4-\n5 5-\n6 6-\n7 7-\n"); }
     s
 }
